@@ -90,6 +90,14 @@ CFG = {
         "io.Writer: lean/GeomV/C05/Sink.lean models wkb.Write call by call (one w.Write per binary.Write, in the order of the Go source, stopping at the "
         "first error) over any writer state machine; hand-written, proved equal to Model.write on writers that accept everything (C05_sink_ok) and "
         "tied by the wrfail lines (exact result and bytes for a writer failing after k bytes)",
+        "Phase 4: (1) io.ReadFull over scripts is additive (FillAdd.lean) and the Reach invariant is carried through TieGenS, so the regenerated streaming Read "
+        "and the hand-written Stream.readS are the SAME function on every scripted reader, reader state included (C05_stream_gen_exact): Stream.readS, which judges "
+        "the rdscript/rdretry lines, is a consequence of the Go text. (2) T1, writing path call by call: the extractor translates every writer function a SECOND time "
+        "with the io.Writer as any writer state machine K : Sink (Gen.lean, names ending in W; vocabulary lean/GeomV/C05/GenLibW.lean: binary.Write = ONE K.put of the buffer "
+        "GenLib's primitive appends to an empty buffer; an error carries the writer state reached); TieSink.lean proves function by function (11 lemmas GenW.tie_*W) that "
+        "it is Sink.writeW for EVERY writer (C05_sink_src), so Sink.writeW, which judges the wrfail lines, is a consequence of the Go text too; trusted there: the same "
+        "translator and GenLibW.lean. (3) Retry.lean: io.ReadFull with the reader state kept on failure (fillR, proved to refine Stream.fill; an error is reported once), "
+        "tied by the rdretry lines (harness scriptReader follows the same rule)",
         "harness/cmd/c05 + lean driver + lib/vcheck.py transport inputs faithfully",
     ],
     "assumptions": ["member counts < 2^32 (the WKB count field) — proved to be exactly the lossless domain (C05_roundtrip_iff; behaviour beyond it: C05_count_wraps); "
@@ -116,6 +124,10 @@ CFG = {
             "Wave 3: every count field (points, rings, Multi* members, collection members) at 65536/65537 in the quick tier; wrfail lines with an unsupported value at "
             "top level / after supported members / nested (bytes handed to the writer before the error must be a prefix of the model's); all-empty values of every "
             "type decoded with a nil-vs-empty report. "
+            "Phase 4: histories with failed calls between valid ones (failthen: Encode/hex.Encode of values whose unsupported member comes after supported ones, Write to a "
+            "writer failing half way, Decode of a truncated encoding; every answer read after the last call); wkb.Read twice on ONE scripted reader that fails before or inside "
+            "a first encoding (io.EOF or its own error, alone or with the last bytes) and then delivers a complete one (rdretry, built by the Lean prep stage from the independent "
+            "serializer); collections nested 6..1000 deep, bare and with siblings at every level; hex round trips at text lengths 2^16, 2^20, 2^21. "
             "distinct = distinct input line; non-trivial = verdict class not 'skipped'",
     "timeout": {"quick": 600, "thorough": 3000},
 }
